@@ -29,7 +29,8 @@
 \*     HandlerFunc can read the same bytes again from the request; a request without a body has no input.
 \*     A body larger than 20 MB (announced or not) is answered 413 and never handed to a function.
 \*  P6 module: while the module an endpoint BelongsTo is not online (nor about to be) the answer is 503 and
-\*     nothing is invoked; endpoints without a module are not affected.
+\*     nothing is invoked; endpoints without a module are not affected.  A request that arrives while the
+\*     module is starting waits for it (up to 10 s) and is served when it has come online in time.
 \*  P7 answers of an invoked function:
 \*     error          the status of the first HTTPStatusProvider in the error chain, else 500; the body is
 \*                    the error text
@@ -99,6 +100,8 @@ AfterReg(st, d, r) == IF r = "ok" THEN [st EXCEPT !.regs = @ \cup {Norm(d)}] ELS
 Step(st, o) ==
     CASE o.op = "reg" -> {[res |-> r, st |-> AfterReg(st, o.d, r)] : r \in RegResults(st, o.d)}
       [] o.op = "mod" -> {[res |-> "ok", st |-> [st EXCEPT !.online = o.on]]}
+      \* a request that arrives while the module starts (the start completes 100 ms later)
+      [] o.op = "reqstart" -> {[res |-> "-", st |-> [st EXCEPT !.online = TRUE]]}
       [] OTHER -> {[res |-> "-", st |-> st]}
 
 \* ---------------------------------------------------------------- P2 export
